@@ -20,6 +20,7 @@
 // Direct FIRRateConverter(L, M) on NON-coprime pairs is held to the chain with L and M exactly as given.
 // design_symmetry: every design_multirate_fir(L, M, hlen, astop) is linear-phase (the premise of all of the above).
 #include "kit/num.h"
+#include "kit/prelude.h"
 #include <dsplib.h>
 
 #include <cstring>
@@ -193,6 +194,7 @@ struct Spec
 {
     int cls, L, M, k, hk, hlen, hshape, in;
     uint64_t seed;
+    int longf{0};   // > 0: the stream holds one frame of more than 65536 input samples (16-bit offsets inside a call)
 };
 // failure-signature tag; a direct converter built on a non-reduced pair is a class of its own
 std::string tag_of(const Spec& s, Mode mode) {
@@ -225,9 +227,9 @@ bool run_stream(const Spec& sp, const arr_real* h, Mode mode, Rng& r, int units,
     const double band = 0.5 * std::min(1.0, double(L) / double(M));
     res.x = make_input(r, total, in_cls, band);
     // cut the stream into 1..4 frames (cuts may coincide: empty frames are multiples of M too)
-    const int nf = r.range(1, 4);
+    const int nf = sp.longf ? r.range(1, 2) : r.range(1, 4);
     std::vector<int> cuts = {0, units};
-    for (int j = 1; j < nf; ++j) cuts.push_back(r.range(0, units));
+    for (int j = 1; j < nf; ++j) cuts.push_back(sp.longf ? r.range(0, std::max(0, units - (65537 + M - 1) / M)) * (r.coin() ? 1 : 0) : r.range(0, units));
     std::sort(cuts.begin(), cuts.end());
     const bool can_reject = (M >= 2) && (mode == M_DECIM || mode == M_RATE);
     const int forced_at = force_bad ? r.range(0, nf - 1) : -1;
@@ -282,6 +284,8 @@ Spec decode(const Json& c) {
 VK_SUB(chain, "chain_identity");
 static void chain_check(const Json& c, Out& o) {
     Spec sp = decode(c);
+    sp.longf = c.geti("long", 0);
+    if (sp.longf) o.label("frame > 65536 input samples");
     const int L = sp.L, M = sp.M;
     const Mode mode = mode_of(sp.cls, L, M);
     const std::string tag = tag_of(sp, mode);
@@ -333,7 +337,7 @@ static void chain_check(const Json& c, Out& o) {
         const int nruns = (hi == 0) ? 2 : 1;
         for (int q = 0; q < nruns; ++q, ++run_no) {
             const int in_cls = (hi == 0 && q == 1) ? sp.in : int(I_GAUSS);
-            const int units = min_units + r.range(0, 6);
+            const int units = min_units + r.range(0, 6) + ((sp.longf && q == nruns - 1 && hi == 0) ? (65537 + r.range(0, 6000) + M - 1) / M : 0);
             StreamResult sr;
             if (!run_stream(sp, sp.hk ? &h : nullptr, mode, r, units, in_cls, run_no == 1, o, sr)) return;
             calls += sr.frames + sr.rejected;
@@ -416,6 +420,22 @@ static void chain_gen(Ctx& ctx) {
                     const int hlen = hk ? pick_hlen(r, q.L, std::max(q.L, q.M), hk) : 0;
                     ctx.eval(chain_case(C_RATE, q.L, q.M, 1, hk ? 1 : 0, hlen, r.range(0, HS_NSHAPE - 1), in, sd));
                 }
+    // (1c) one frame of more than 65536 input samples for every class (counters and offsets inside a single call)
+    {
+        struct LC { int cls, L, M; };
+        const LC lcs[] = {{C_RATE, 3, 2}, {C_RATE, 2, 3}, {C_RATE, 5, 4}, {C_RATE, 4, 6}, {C_INTERP, 2, 1}, {C_INTERP, 3, 1}, {C_DECIM, 1, 2}, {C_DECIM, 1, 5}, {C_RESAMPLER, 3, 2}, {C_RESAMPLER, 2, 5}, {C_RESAMPLER, 160, 147}};
+        for (const LC& lc : lcs)
+            for (int hk = 0; hk < ctx.by_tier(2, 3); ++hk) {
+                if (lc.L > 16 && hk) continue;
+                if (!ctx.mine()) continue;
+                uint64_t sd = mix(ctx.seed, key_of(lc.cls, lc.L, lc.M, hk, 0x10F));
+                Rng r(sd);
+                const Mode md = mode_of(lc.cls, lc.L, lc.M);
+                const int pc = md == M_DECIM ? lc.M : lc.L;
+                const int hlen = hk ? pick_hlen(r, pc, std::max(lc.L, lc.M), hk) : 0;
+                ctx.eval(chain_case(lc.cls, lc.L, lc.M, 1, hk ? 1 : 0, hlen, r.range(0, HS_NSHAPE - 1), int(I_GAUSS), sd).set("long", 1));
+            }
+    }
     // (2) random: everything free, h length anywhere in 2..40*max(L,M)
     const auto& rs = all_ratios();
     const auto& nc = noncoprime_ratios();
